@@ -9,8 +9,21 @@ THEOREMS = [
              "whole model: every evaluator call sits under a handler)"},
     {"name": "C11_update_task_state_contained / C11_get_next_tasks_contained / C11_render_output_contained",
      "strength": "F", "text": "the same per provider-facing function"},
-    {"name": "(tested, not proved) the failure is logged naming the task/transition and the workflow becomes failed "
-             "or stays canceled", "strength": "T", "text": "monitor c11 over definitions with failing expressions injected"},
+    {"name": "C11_guarded_site / C11_collected_site + C11_input_vars_recorded, C11_task_rendering_recorded, "
+             "C11_retry_setup_recorded, C11_retry_condition_recorded, C11_criteria_recorded, C11_publish_recorded, "
+             "C11_recorded_stays (props/C11b.v)", "strength": "F",
+     "text": "RECORDED: at every handler site, if the guarded computation raised e, the error log afterwards holds the entry "
+             "'<class>: <message>' naming the task and route (and the transition for criteria / publish; nothing for "
+             "input/vars/output); entries are never lost by a non-rerun call. No hypothesis on the evaluator"},
+    {"name": "C11_contained_failure_fails / C11_fail_request / C11_errors_only_appended / C11_lifecycle_kept", "strength": "F",
+     "text": "FAILS: after any non-rerun API call that appended a handled error entry the workflow is failed, or canceled if "
+             "it was canceled (from canceling, pausing, paused, resuming, succeeded it becomes failed), for every state whose "
+             "status has a row in the generated table (kept by every call)"},
+    {"name": "C11_failed_rendering_offers_nothing / C11_settled_offers_only_cleanup", "strength": "F",
+     "text": "NO FURTHER OFFER: a poll that logged a rendering failure returns [] (healthy siblings included); a settled "
+             "workflow offers only run_on_fail clean-up entries"},
+    {"name": "(tested) monitor c11 over definitions with failing expressions injected", "strength": "T",
+     "text": "the same clauses on the engine, plus the evaluator-hypothesis check"},
 ]
 TRUSTED_BASE = common.TRUSTED_BASE_COMMON + [
     "hypothesis of the containment theorem about the real evaluators (both wrap every failure in "
